@@ -143,7 +143,9 @@ template <class NS> struct SolverSession : Session {
                 if (armed("C01")) checkC01(x, flagged, "inc", ineqOnly && scale1);
                 if (armed("C02") && isSolve && !anyflag) {
                     std::vector<double> opt;
-                    int ok = qpSolve(model, opt, flagged, n > 40 ? 60000 : 300000);
+                    int ok = 0;
+                    if (isChain(model)) { ok = chainOptimum(model, opt); if (ok) probe("vpsc.chain-oracle"); }
+                    if (!ok) ok = qpSolve(model, opt, flagged, n > 40 ? 60000 : 300000);
                     if (!ok) probe("vpsc.oracle-no-verdict");
                     else {
                         probe("vpsc.optimum-compared");
@@ -280,6 +282,28 @@ Json genSolverSession(Rng &r, const std::string &tier, int forceNs = -1) {
     Json s = Json::obj();
     bool avoidNs = forceNs >= 0 ? forceNs == 1 : r.chance(0.3);
     s.set("kind", avoidNs ? "avoidvpsc" : "vpsc");
+    if (r.chance(tier == "thorough" ? 0.08 : 0.04)) {
+        // long chain on one live solver: first everything collapses into one block, then the desired positions spread out so
+        // that every active constraint (hundreds) has to be released by one solve(), then they come back
+        int n = r.range(120, 320);
+        std::vector<double> ws{1, 1, 1, 2, 10, 0.5};
+        Json vars = Json::arr(), cons = Json::arr();
+        for (int i = 0; i < n; i++) { Json v = Json::arr(); v.push((double)r.range(-3, 3)); v.push(r.pick(ws)); v.push(1.0); vars.push(v); }
+        for (int i = 0; i + 1 < n; i++) { Json c = Json::arr(); c.push(i); c.push(i + 1); c.push((double)r.range(0, 3)); c.push(0); cons.push(c); }
+        Json cfg = Json::obj(); cfg.set("vars", vars); cfg.set("cons", cons); cfg.set("style", "chain"); s.set("cfg", cfg);
+        Json ops = Json::arr();
+        auto solve = [&] { Json o = Json::obj(); o.set("op", "solve"); ops.push(o); };
+        auto desiredAll = [&](int mode) {
+            Json o = Json::obj(); o.set("op", "desired"); Json sl = Json::arr();
+            for (int i = 0; i < n; i++) { Json e = Json::arr(); e.push(i); e.push(mode == 0 ? (double)i * 10 + r.range(-2, 2) : mode == 1 ? (double)r.range(-10, 10) : (double)(n - i) * 5); sl.push(e); }
+            o.set("set", sl); ops.push(o);
+        };
+        solve();
+        int rounds = r.range(1, 3);
+        for (int k = 0; k < rounds; k++) { desiredAll((int)r.below(3)); solve(); }
+        s.set("ops", ops);
+        return s;
+    }
     bool cycles = r.chance(0.5), equalities = r.chance(0.4), scales = r.chance(0.25), dups = r.chance(0.3);
     bool large = tier == "thorough" && r.chance(0.1);
     int n = large ? r.range(20, 200) : r.range(2, 12);
@@ -359,7 +383,7 @@ struct OverlapSession : Session {
     std::vector<double> W, H;
     void checkSizes(const char *after) {
         for (size_t i = 0; i < rs.size(); i++)
-            if (std::fabs(rs[i]->width() - W[i]) > 1e-9 || std::fabs(rs[i]->height() - H[i]) > 1e-9) {
+            if (std::fabs(rs[i]->width() - 2 * vpsc::Rectangle::xBorder - W[i]) > 1e-9 || std::fabs(rs[i]->height() - 2 * vpsc::Rectangle::yBorder - H[i]) > 1e-9) {     // width()/height() include the client's border
                 violate("C09", "size", std::string("size-changed-by-") + after, fmt("rect %zu: %gx%g -> %gx%g", i, W[i], H[i], rs[i]->width(), rs[i]->height()));
                 break;
             }
@@ -390,6 +414,12 @@ struct OverlapSession : Session {
             if (o == "move") {
                 for (auto &mj : op["set"].a) { int i = (int)mj[0].i(); if (i < n) { rs[i]->moveCentreX(mj[1].num()); rs[i]->moveCentreY(mj[2].num()); } }
             } else if (o == "removeoverlaps") {
+                // the client's own border setting (process-global): in force during the call, must be in force after it.
+                // Set and withdrawn inside this op (no yield in between): other sessions never see it.
+                double cbx = op["border"].size() == 2 ? op["border"][0].num() : 0, cby = op["border"].size() == 2 ? op["border"][1].num() : 0;
+                struct BorderGuard { ~BorderGuard() { vpsc::Rectangle::setXBorder(0); vpsc::Rectangle::setYBorder(0); } } borderGuard;
+                vpsc::Rectangle::setXBorder(cbx); vpsc::Rectangle::setYBorder(cby);
+                if (cbx != 0 || cby != 0) probe("overlap.client-border");
                 std::set<unsigned> fixed;
                 for (auto &fj : op["fixed"].a) if (fj.i() < n) fixed.insert((unsigned)fj.i());
                 // fixed rectangles must not overlap one another, else the request is unsatisfiable
@@ -420,7 +450,7 @@ struct OverlapSession : Session {
                 if (third) probe("overlap.third-pass");
                 if (vpsc::Rectangle::xBorder != bx || vpsc::Rectangle::yBorder != by) {
                     violate("C09", "borders", ex.empty() ? "borders-not-restored" : "borders-not-restored-after-" + ex, fmt("x %g->%g y %g->%g", bx, vpsc::Rectangle::xBorder, by, vpsc::Rectangle::yBorder));
-                    vpsc::Rectangle::setXBorder(bx); vpsc::Rectangle::setYBorder(by);
+                    vpsc::Rectangle::setXBorder(bx); vpsc::Rectangle::setYBorder(by);       // judge the placement with the client's borders (getMin/getMax include them)
                 }
                 if (!ex.empty()) {
                     w->fault("exception");
@@ -533,6 +563,7 @@ Json genOverlapSession(Rng &r, const std::string &tier) {
         Json fx = Json::arr();
         if (r.chance(0.5)) { int k = r.chance(0.75) ? 1 : r.range(2, 3); for (int j = 0; j < k; j++) fx.push((long)r.below(n)); }
         o.set("fixed", fx); o.set("third", r.chance(0.5)); o.set("api", (long)r.below(3));
+        if (r.chance(0.25)) { Json b = Json::arr(); b.push(r.pick(std::vector<double>{0, 0.5, 1, 2, 5})); b.push(r.pick(std::vector<double>{0, 0.5, 1, 2, 5})); o.set("border", b); }
         ops.push(o);
     }
     s.set("ops", ops);
